@@ -81,6 +81,9 @@ PATH_SEPARATOR_CHILD = '/'
 PATH_SEPARATOR_ATTRIB = '.'
 PATH_SEPARATOR_DESCEND = '>'
 
+# A descriptor ID is made of digits and upper case letters, e.g. 001001, A21062
+ID_CHARS = '0123456789ABCDEFGHIJKLMNOPQRSTUVWXYZ'
+
 STATE_START_PARSING = ''
 STATE_START_SUBSET = '@'
 STATE_START_SUBSET_SLICE_0 = '@['
@@ -254,6 +257,9 @@ class NodePathParser(object):
             raise PathExprParsingError('empty ID at position {}'.format(self.pos))
 
         token, self.current_token = self.current_token, ''
+        for c in token:
+            if c not in ID_CHARS:
+                raise PathExprParsingError('invalid char {!r} in ID {!r} at position {}'.format(c, token, self.pos))
         return token
 
     def create_slice_object(self):
